@@ -13,15 +13,15 @@ use crate::refmodel::value::RV;
 use crate::rng::Rng;
 use evalexpr::{Context, ContextWithMutableVariables, DefaultNumericTypes, EmptyContext, EmptyContextWithBuiltinFunctions};
 
-pub const OTHERS: [&str; 25] = [
-    "math::", "len::", "::", "str::from::",
+pub const OTHERS: [&str; 28] = [
+    "math::", "len::", "::", "str::from::", "0xfeed_f00d", "0x_", "1_000",
     "foo", "math::nope", "str", "Typeof", "random", "str::regex_matches", "str::regex_replace",
     // a builtin under another namespace is not a builtin
     "math::floor", "math::round", "math::min", "math::len", "str::len", "sqrt", "trim", "math::math::sqrt", "::len",
     // non-ASCII and keyword-like names are names like any other
     "λ", "élan", "面积", "not", "and",
 ];
-const KINDS: usize = 10;
+const KINDS: usize = 12;
 const SWITCH: usize = 3;
 const FORMS: usize = 16;
 const USERS: usize = 4;
@@ -91,7 +91,7 @@ impl Phase for Matrix {
             "{}   [context kind {} ({}), builtins {}, user function `{}` {}, variable `{}` {}]",
             src,
             kind,
-            ["HashMapContext", "clone", "after clear_functions", "after clear", "clone, original modified afterwards", "RecordingContext", "fixed empty contexts", "functions defined while builtins were disabled, switch set afterwards", "after 256 x clear_functions", "after 65536 x clear_functions (256 for all but the first call form)"][kind],
+            ["HashMapContext", "clone", "after clear_functions", "after clear", "clone, original modified afterwards", "RecordingContext", "fixed empty contexts", "functions defined while builtins were disabled, switch set afterwards", "after 256 x clear_functions", "after 65536 x clear_functions (256 for all but the first call form)", "clear_functions while a clone is alive", "every function defined twice (first as another function)"][kind],
             ["on", "off", "toggled twice (on)"][switch],
             name,
             ["absent", "present", "present but failing", "present but failing with FunctionIdentifierNotFound of another function"][user_mode],
@@ -156,6 +156,7 @@ impl Phase for Matrix {
             let _ = c.set_builtin_functions_disabled(false);
         }
         let mut model = m.clone();
+        let mut drop_later: Option<Ctx> = None;
         let c: Ctx = match kind {
             7 => {
                 // the other order of construction: disable, define the functions, then set the switch
@@ -175,6 +176,30 @@ impl Phase for Matrix {
                 c.clear_functions();
                 model.funs.clear();
                 c
+            },
+            10 => {
+                // what a clone holds is the clone's business: the original is cleared while the clone is alive
+                let keep_alive = c.clone();
+                c.clear_functions();
+                model.funs.clear();
+                let _ = std::hint::black_box(&keep_alive);
+                drop_later = Some(keep_alive);
+                c
+            },
+            11 => {
+                // the last definition of a name is the one that counts
+                let mut d = Ctx::new();
+                for (k, _) in &m.funs {
+                    observe::register_fn(&mut d, k, FnModel::Const(RV::Str("first definition".into()).to_value()), &log);
+                }
+                for (k, f) in &m.funs {
+                    observe::register_fn(&mut d, k, f.clone(), &log);
+                }
+                for (k, v) in &m.vars {
+                    let _ = d.set_value(k.clone(), v.to_value());
+                }
+                let _ = d.set_builtin_functions_disabled(off);
+                d
             },
             8 | 9 => {
                 // a long-lived context: cleared again and again (whatever counts the clears must not wrap around)
@@ -278,6 +303,7 @@ impl Phase for Matrix {
         out.sample(|| desc.clone());
         self.trees.insert(src, tree);
         let _ = Context::are_builtin_functions_disabled(&c);
+        drop(drop_later);
     }
 }
 
